@@ -1,7 +1,7 @@
 (* C17 — property theorems.  This file contains only statements, each closed
    by [exact] of a lemma from Proofs.v, and non-vacuity examples. *)
 From Coq Require Import List NArith Bool.
-Require Import BobV.Gen.Consts BobV.C17.Model BobV.C17.Proofs.
+Require Import BobV.Gen.Consts BobV.C17.Model BobV.C17.Proofs BobV.C17.Machine BobV.C17.Spec BobV.C17.MachineProofs.
 Import ListNotations.
 Open Scope N_scope.
 
@@ -50,9 +50,52 @@ Theorem str_lt_strict_total :
   (forall a b, str_ltb a b = true \/ a = b \/ str_ltb b a = true).
 Proof. exact (conj str_ltb_irrefl (conj str_ltb_trans (fun a b => str_ltb_total a b))). Qed.
 
-(* non-vacuity: concrete instances, evaluated *)
 Definition cx0 : ctx :=
   {| c_env := [([88], [118; 97; 108])]; c_nounset := true; c_sandbox := false; c_tools := [] |}.
+
+(* ---- the documented language as a whole (character-level machine model, C17/Machine.v) ----
+   Every expression tree of the documented grammar (literals with escapes,
+   single and double quotes nested through variables and calls, bare and braced
+   variables with default/alternate with and without colon, function calls),
+   rendered to concrete syntax, yields exactly its documented value — including
+   which error is raised, and including laziness: an untaken default/alternate
+   is evaluated with substitution off. *)
+Theorem parse_render : forall c e,
+  wf_items e = true -> parseM c (r_items e) = e_items c true e.
+Proof. exact parse_render_proof. Qed.
+
+(* the same inside any context: any activation kind, any surrounding stack, any following text *)
+Theorem parse_render_in_context : forall c e sb k acc below rest,
+  wf_items e = true -> (k = KDq -> no_top_dq e = true) -> (ends_bare e = true -> nsafe rest = true) ->
+  exec c (FS k sb acc :: below) (r_items e ++ rest) =
+  bind (e_items c sb e) (fun v => exec c (FS k sb (acc ++ v) :: below) rest).
+Proof. intros c. exact (proj1 (proj2 (machine_computes_documented_value c))). Qed.
+
+(* lazy evaluation of untaken branches: with substitution off nothing fails,
+   whatever unset variables or unknown functions the branch mentions *)
+Theorem untaken_branch_never_fails : forall c e, exists v, e_items c false e = Ok v.
+Proof. intros c. exact (proj1 (proj2 (untaken_never_fails c))). Qed.
+
+(* for arbitrary raw input the machine yields a value, a parse error or an
+   unmodelled-function marker: it is total (structural recursion), there is no
+   internal failure mode *)
+Theorem machine_total : forall c t, parseM c t <> Fuel.
+Proof. exact machine_total_proof. Qed.
+
+(* non-vacuity: concrete instances, evaluated *)
+Definition ex_ast : items :=     (* "a\$"'q'${Y:-d$X}$(eq,${X},val)$X *)
+  ICons (IDq (ICons (ILit [97; 36]) INil))
+  (ICons (ISq [113])
+  (ICons (IVar (ICons (ILit [89]) INil) (OBody true false (ICons (ILit [100]) (ICons (IBare [88]) INil))))
+  (ICons (ICall (WCons (ICons (ILit [101; 113]) INil) (WCons (ICons (IVar (ICons (ILit [88]) INil) ONone) INil)
+                (WOne (ICons (ILit [118; 97; 108]) INil)))))
+  (ICons (IBare [88]) INil)))).
+
+Example parse_render_nonvacuous :
+  wf_items ex_ast = true /\
+  parseM cx0 (r_items ex_ast) = Ok [97; 36; 113; 100; 118; 97; 108; 116; 114; 117; 101; 118; 97; 108] /\
+  parse cx0 (r_items ex_ast) = parseM cx0 (r_items ex_ast).
+Proof. vm_compute. auto. Qed.
 
 Example single_quote_nonvacuous :   (* '$X"\' -> $X"\ *)
   parse cx0 [39; 36; 88; 34; 92; 39] = Ok [36; 88; 34; 92].
